@@ -3,6 +3,7 @@ package main
 import (
 	"fmt"
 	"io"
+	"os"
 	"sort"
 	"strconv"
 	"strings"
@@ -38,9 +39,16 @@ func genCluster(g *gen) {
 	n := 500 * g.scale
 	for i := 0; i < n; i++ {
 		g.newCase()
-		g.emit("K init")
+		if i%6 == 1 {
+			g.emit("K init real")
+		} else {
+			g.emit("K init")
+		}
 		// every third case drives the module's REAL mainLoop: ticks on the three ticker channels instead of direct calls
 		loopMode := i%3 == 2
+		// every sixth case runs against a REAL sarama.Client connected to sarama's mock brokers, through Burrow's real
+		// shim: only what a real cluster can do is scripted (no failing client calls; leaders as the metadata says)
+		realMode := i%6 == 1
 		if loopMode {
 			g.emit("K loop")
 		}
@@ -49,6 +57,9 @@ func genCluster(g *gen) {
 		order := []string{}
 		addTopic := func(t string) {
 			np := g.intn(5)
+			if i%6 == 1 && np == 0 {
+				np = 1 // a real broker does not list a topic without partitions
+			}
 			ps := make([]clPart, np)
 			for k := range ps {
 				ps[k] = clPart{k, 1 + g.intn(3)}
@@ -143,6 +154,15 @@ func genCluster(g *gen) {
 			}
 			// the Kafka error code partitions in `pe` are answered with (any non-zero code is an error)
 			pec := g.pick(6, 6, 3, 5, 9, 7, 1, 56, 78, 74, -1)
+			if realMode {
+				if g.chance(1, 5) {
+					g.emit("K move %d", 1+g.intn(3))
+				}
+				// the real client answers leader lookups from the metadata it read last, and a mock broker answers with a fixed
+				// set of blocks: both are the current layout exactly when the cycle starts with a metadata refresh
+				g.emit("K cycle tick=1 meta=%s terr=0 perr=- lq=- bf=- pe=%s off=%d pec=%d ek=0", meta, pe, 1+c, pec)
+				continue
+			}
 			if !loopMode {
 				g.emit("K cycle tick=%d meta=%s terr=%d perr=%s lq=%s bf=%s pe=%s off=%d pec=%d ek=%d", tick, meta, terr, perr, lq, bf, pe, 1+c, pec, g.intn(5))
 				continue
@@ -374,6 +394,14 @@ func runCluster(r *runner) {
 		}
 		return out, true
 	}
+	// real mode: a real sarama client on sarama's mock brokers, created on first use and kept for the run
+	var real *verifhook.RealKafka
+	realMode, realUnavailable := false, false
+	defer func() {
+		if real != nil {
+			real.Close()
+		}
+	}()
 	// loop mode: the module's real mainLoop runs on three ticker channels the harness owns
 	var offC, metaC, reapC chan time.Time
 	var lp *clPump
@@ -410,8 +438,30 @@ func runCluster(r *runner) {
 		f := strings.Split(line, " ")
 		r.resolve("%s", line)
 		switch f[1] {
+		case "move":
+			if cl == nil {
+				r.reply("bad-op")
+				break
+			}
+			if real != nil && realMode {
+				real.MoveBroker(int32(atoi(f[2])))
+			}
+			r.reply("ok")
 		case "init":
 			stopLoop()
+			realMode = len(f) > 2 && f[2] == "real"
+			if realMode && real == nil {
+				// no loopback listener in this sandbox: the case runs against the scripted fake instead (same ops, same model)
+				if k, err := verifhook.NewRealKafka(3); err == nil {
+					real = k
+				} else if !realUnavailable {
+					realUnavailable = true
+					fmt.Fprintf(os.Stderr, "cluster stream: real sarama client unavailable (%v); real-mode cases run against the fake\n", err)
+				}
+			}
+			if realMode && real == nil {
+				realMode = false
+			}
 			app = &protocol.ApplicationContext{StorageChannel: make(chan *protocol.StorageRequest, 4096)}
 			cl = verifhook.NewKafkaCluster(app, "c0")
 			partCache, partCacheWant = map[string][]int32{}, map[string][]int32{}
@@ -421,6 +471,36 @@ func runCluster(r *runner) {
 			env = parseClEnv(kv)
 			if kv["tick"] == "1" {
 				cl.SetFetchMetadata(true)
+			}
+			if realMode {
+				layout := map[string]map[int32]int32{}
+				answers := map[int32][]verifhook.BlockAnswer{}
+				for _, t := range env.order {
+					layout[t] = map[int32]int32{}
+					for _, p := range env.parts[t] {
+						layout[t][int32(p.id)] = int32(p.leader)
+						if p.leader >= 0 {
+							a := verifhook.BlockAnswer{Topic: t, Partition: int32(p.id), Offset: env.base*1000 + 10*topicIndex(t) + int64(p.id)}
+							if env.pe[fmt.Sprintf("%s.%d", t, p.id)] {
+								a.Err, a.Code = true, env.pec
+							}
+							answers[int32(p.leader)] = append(answers[int32(p.leader)], a)
+						}
+					}
+				}
+				res := guard(func() string {
+					real.Script(layout, answers)
+					real.Since()
+					cl.GetOffsetsReal(real)
+					var reqs []*protocol.StorageRequest
+					for len(app.StorageChannel) > 0 {
+						reqs = append(reqs, <-app.StorageChannel)
+					}
+					refreshes, asked := real.Since()
+					return renderCycleOf(refreshes, asked, cl, reqs)
+				})
+				r.reply("%s", res)
+				break
 			}
 			fake.Reset()
 			res := guard(func() string {
@@ -556,6 +636,10 @@ func runCluster(r *runner) {
 
 // renderCycle prints what one refresh cycle did: the storage requests it sent and the brokers it asked.
 func renderCycle(fake *verifhook.FakeKafka, cl *verifhook.KafkaCluster, reqs []*protocol.StorageRequest) string {
+	return renderCycleOf(fake.RefreshCalls, fake.Asked, cl, reqs)
+}
+
+func renderCycleOf(refreshCalls int, askedOf map[int32][]verifhook.TopicPartition, cl *verifhook.KafkaCluster, reqs []*protocol.StorageRequest) string {
 	var deletes, updates, asked []string
 	for _, q := range reqs {
 		switch q.RequestType {
@@ -570,13 +654,13 @@ func renderCycle(fake *verifhook.FakeKafka, cl *verifhook.KafkaCluster, reqs []*
 	sort.Strings(deletes)
 	sort.Strings(updates)
 	var bs []int
-	for b := range fake.Asked {
+	for b := range askedOf {
 		bs = append(bs, int(b))
 	}
 	sort.Ints(bs)
 	for _, b := range bs {
 		var xs []string
-		for _, tp := range fake.Asked[int32(b)] {
+		for _, tp := range askedOf[int32(b)] {
 			xs = append(xs, fmt.Sprintf("%s.%d", tp.Topic, tp.Partition))
 		}
 		sort.Strings(xs)
@@ -592,7 +676,7 @@ func renderCycle(fake *verifhook.FakeKafka, cl *verifhook.KafkaCluster, reqs []*
 	if cl.FetchMetadata() {
 		fm = 1
 	}
-	return fmt.Sprintf("refresh=%d deletes=%s asked=%s updates=%s fm=%d", fake.RefreshCalls, j(deletes, ","), j(asked, ";"), j(updates, ","), fm)
+	return fmt.Sprintf("refresh=%d deletes=%s asked=%s updates=%s fm=%d", refreshCalls, j(deletes, ","), j(asked, ";"), j(updates, ","), fm)
 }
 
 // clPump stands in for storage while the real main loop runs: it takes every request off the storage channel, answers
